@@ -21,6 +21,7 @@ import vlib
 KF_CONST_STR = "py-const-string-result-with-defaults"
 KF_LUA_CHARP = "lua-char-pointer-argument"
 KF_C_VECTOR = "c-only-vector-argument"
+KF_PYVECSTR = "python-vector-of-strings-argument"
 FINDING_LIBS = [
     # (key, library, header name, header text, options, file expected not to compile)
     (KF_LUA_CHARP, {"library": "fl1", "cxx_header": "fl1.hpp", "declarations": [{"decl": "int cstr(const char *t)"}]},
@@ -78,6 +79,7 @@ LONELY = [
     ("vecu64", "void fill64(std::vector<uint64_t> &v +intent(out))", "void fill64(std::vector<uint64_t> &v);", "#include <vector>\n#include <cstdint>\n"),
     ("vecsz", "size_t total(const std::vector<size_t> &v)", "size_t total(const std::vector<size_t> &v);", "#include <vector>\n#include <cstddef>\n"),
     ("arr32", "void scale32(int32_t *v +rank(1)+intent(inout), int n +implied(size(v)))", "void scale32(int32_t *v, int n);", "#include <cstdint>\n"),
+    ("vecimpl", "int vsum(const std::vector<int> &a0, int a1 +implied(size(a0)))", "int vsum(const std::vector<int> &a0, int a1);", "#include <vector>\n"),
 ]
 
 GEN_HPP = r'''#pragma once
@@ -302,7 +304,9 @@ def run(ctx):
            [("ns_%d" % i, GENNS, "nsl.hpp", GENNS_HPP, o) for i, o in enumerate([dict(), dict(F_CFI=True), dict(debug=True, F_flatten_namespace=True)])] + \
            [("lone_%s_%d" % (nm, i), {"library": "lo" + nm, "cxx_header": "lo.hpp", "options": {"wrap_lua": False, "wrap_python": False},
                                       "declarations": [{"decl": decl}]}, "lo.hpp", "#pragma once\n" + inc + proto + "\n", o)
-            for (nm, decl, proto, inc) in LONELY for i, o in enumerate([dict(), dict(F_CFI=True)] if not quick else [dict()])]
+            for (nm, decl, proto, inc) in LONELY
+            for i, o in enumerate([dict(), dict(F_CFI=True), dict(wrap_python=True, PY_array_arg="list")] if not quick
+                                  else [dict(), dict(wrap_python=True, PY_array_arg="list")])]
 
     def two(j):
         return j, build_and_compile(ctx, *j)
@@ -314,6 +318,10 @@ def run(ctx):
                 tot[k] = tot.get(k, 0) + v
             ctx.hist("matrix:" + j[0].split("_")[0])
             for f in fails:
+                if (j[0].startswith("lone_strvec") and f["file"] == "(shroud)" and "create_from_PyObject_vector_std::string" in f["message"]
+                        and ctx.is_known(KF_PYVECSTR)):
+                    ctx.known_finding(KF_PYVECSTR, "")
+                    continue
                 ctx.violation("failing-input", {"what": "a generated file does not compile or link", "input": {"library_yaml": open(yp).read(), "options": j[4], "file": f["file"]},
                                                 "compiler_output": f["message"]})
     # fixed libraries exhibiting the recorded findings
